@@ -699,6 +699,18 @@ fn run_op(tx: &mut Transaction, op: &Value) -> Value {
                 t
             };
             let good = with_unlock(&tx, &unlock_asm(&sigs));
+            let mut depth_problems: Vec<String> = vec![];
+            {
+                // the signature opcodes consume exactly their operands: a standard spend leaves one item
+                let depth = catch_unwind(AssertUnwindSafe(|| {
+                    let mut i = Interpreter::from_transaction(&good, idx).ok()?;
+                    i.run().ok()?;
+                    Some(i.state().stack().len())
+                }));
+                if !matches!(depth, Ok(Some(1))) {
+                    depth_problems.push(format!("spend signed through the API: final stack depth {:?}, expected 1", depth));
+                }
+            }
             let mut problems: Vec<String> = vec![];
             let mut expect = |what: &str, t: &Transaction, want: bool| match accepted(t, idx) {
                 Ok(got) if got == want => {}
@@ -802,6 +814,7 @@ fn run_op(tx: &mut Transaction, op: &Value) -> Value {
                     expect("multisig with the same signature twice", &with_unlock(&tx, &unlock_asm(&s8)), false);
                 }
             }
+            problems.extend(depth_problems);
             problems.truncate(10);
             json!({ "ok": { "problems": problems } })
         }
